@@ -141,6 +141,11 @@ def gen(rng, ty, depth):
             return [0, [8, us(t)]], f"'{t.isoformat(sep=' ')}'::timestamp_ntz"
         u = rng.randrange(6)
         n, sn = gen(rng, "int", 0)
+        if rng.random() < 0.3:               # a sub-day unit over a DATE gives a TIMESTAMP
+            d, sd = gen(rng, "date", depth - 1)
+            if d[0] != 13 and rng.random() < 0.7:
+                d, sd = [13, d], f"({sd})::date"
+            return [17, 5, n, d], f"dateadd(hour, {sn}, {sd})"
         d, sd = gen(rng, "ts", depth - 1)
         return [17, u, n, d], f"dateadd({UNITS[u]}, {sn}, {sd})"
     if ty == "dec":
@@ -204,7 +209,7 @@ def other_cases():
         ("try_to_decimal(try_to_number('12.5', 5, 1)::varchar, 10, 2)", Decimal("12.50")), ("sha2(sha2('a'))", hashlib.sha256(sha.encode()).hexdigest()),
         ("trim(trim('  a '))", "a"), ("regexp_substr(regexp_substr('hello world', 'l+o w'), 'o w')", "o w"), ("equal_null(equal_null(1, 1), true)", True),
         ("to_date(to_date('2020-01-02'))", datetime.date(2020, 1, 2)),
-        ("dateadd(quarter, 1, '2021-01-31'::date)", datetime.date(2021, 4, 30)), ("dateadd(quarter, -1, c2)", datetime.datetime(2019, 10, 31, 10, 30)),
+        ("dateadd(quarter, 1, '2021-01-31'::date)", datetime.date(2021, 4, 30)), ("dateadd(day, 1, dateadd(hour, 5, '2023-04-02'::date))", datetime.datetime(2023, 4, 3, 5, 0)), ("dateadd(quarter, -1, c2)", datetime.datetime(2019, 10, 31, 10, 30)),
     ]
 
 
